@@ -10,6 +10,13 @@ COMMON_NOTE = ('Trusted base: z3 4.x/5.1 (python3-vt), the symx forking engine, 
                'reals), sizes beyond the stated bounds, GPU, complex dtypes. ')
 
 CHECKS = {
+ 'C11': dict(
+    text='The obligations of C01/C03/C07/C06/C13 are re-decided under the variations the property names: (a) gradients with j_precompute=True against the same forward-mode derivatives, (b) the same harnesses in a child interpreter started with -OO (-O and -OO in thorough), '
+         'where assert statements and `if __debug__:` blocks of fggs do not exist -- a crash or a changed term there means an assertion was doing work, (c) one grammar in all four semirings on related symbolic inputs: exp(Log) == Real, Bool == (Real > 0), Viterbi <= Log per cell. '
+         'Method names and float32/float64 are varied inside C01 against one oracle.',
+    note='Bounds: as C03 for (a); 40 (quick) / 400 (thorough) cases per re-run check for (b); non-recursive grammars with <=8 weights for (c). "Within floating-point tolerance" is decided as exact equality of real-valued terms. '
+         'bin/sum_product.py itself is not executed. Known findings F23/F24 (j_precompute) are confined by their signatures.',
+    technique='SMT equivalence over symbolic execution under option / semiring / interpreter-mode variation', design='5/C11'),
  'C14': dict(
     text='Node and edge ids (explicit ids from a pool built around string ordering, or implicit ids produced by a stub of id() that returns solver-chosen distinct ints), attachments and external lists are solver variables; every choice is explored and the round trip '
          'hrg_to_json / json.dumps / json_to_hrg must reproduce the grammar up to renaming of implicit ids, verbatim on a second round trip when all ids are explicit; out-of-range (incl. negative) node numbers must raise ValueError. For patterned weight specifications the solver '
